@@ -10,3 +10,4 @@ open RV.C16
 #print axioms tsv_reader_complete
 #print axioms tsv_old_reader_drops_unbound_rows
 #print axioms csv_preserves
+#print axioms escape_table
